@@ -7,6 +7,13 @@ from pytestarch.eval_structure_generation.file_import.config import Config
 from pytestarch.eval_structure_generation.file_import.file_filter import FileFilter
 
 
+def is_internal_module(module: str, internal_module_prefix: str) -> bool:
+    """Returns True if the module is the internal prefix module or one of its submodules. Only entire module names
+    are compared, e.g. 'src.ab' is not part of 'src.a'."""
+    prefix = internal_module_prefix.rstrip(".")
+    return module == prefix or module.startswith(f"{prefix}.")
+
+
 class ExternalImportFilter:
     """Filters out imports of (some) external modules from the list of all imports.
     External modules are all modules that are not submodules of the configured module to search for imports.
@@ -54,9 +61,7 @@ class ExternalImportFilter:
         return [i for i in imports if self._is_internal_import(i)]
 
     def _is_internal_import(self, i: Import) -> bool:
-        importee = i.importee()
-
-        return importee.startswith(self._root_module_name)
+        return is_internal_module(i.importee(), self._root_module_name)
 
     def _is_internal_or_retained_external_import(self, i: Import) -> bool:
         if self._is_internal_import(i):
